@@ -1707,13 +1707,17 @@ impl Expr {
                 else_expr,
                 ..
             } => {
-                if let Some((_, then_expr)) = when_then.first() {
-                    then_expr.data_type(schema)
-                } else if let Some(else_expr) = else_expr {
-                    else_expr.data_type(schema)
-                } else {
-                    Ok(ArrowDataType::Null)
+                // The common type of every branch (the executor unifies the
+                // branch arrays to the same type): `CASE WHEN c THEN int32_col
+                // ELSE bigint_col END` is BIGINT, not the first branch's type.
+                let mut ty = ArrowDataType::Null;
+                for (_, then_expr) in when_then {
+                    ty = case_common_type(&ty, &then_expr.data_type(schema)?);
                 }
+                if let Some(else_expr) = else_expr {
+                    ty = case_common_type(&ty, &else_expr.data_type(schema)?);
+                }
+                Ok(ty)
             }
             Expr::InList { .. }
             | Expr::Between { .. }
@@ -1920,6 +1924,52 @@ pub(crate) fn coerce_numeric_types(left: &ArrowDataType, right: &ArrowDataType) 
         (Int16, _) | (_, Int16) => Int32,
         (Int8, _) | (_, Int8) => Int16,
         _ => Float64,
+    }
+}
+
+/// The type two CASE branches unify to: the type itself when they agree, the
+/// other one when a branch is an untyped NULL, the wider numeric type when
+/// both are numeric (never the narrower: casting the wide branch down turns
+/// its out-of-range values into NULLs), otherwise the first branch's type.
+pub fn case_common_type(a: &ArrowDataType, b: &ArrowDataType) -> ArrowDataType {
+    use ArrowDataType::*;
+    fn int_rank(t: &ArrowDataType) -> Option<u8> {
+        match t {
+            Int8 | UInt8 => Some(1),
+            Int16 | UInt16 => Some(2),
+            Int32 | UInt32 => Some(3),
+            Int64 | UInt64 => Some(4),
+            _ => None,
+        }
+    }
+    if a == b {
+        return a.clone();
+    }
+    match (a, b) {
+        (Null, t) | (t, Null) => t.clone(),
+        _ => match (int_rank(a), int_rank(b)) {
+            (Some(x), Some(y)) => {
+                let signed_mix = matches!(a, UInt8 | UInt16 | UInt32 | UInt64)
+                    != matches!(b, UInt8 | UInt16 | UInt32 | UInt64);
+                if signed_mix {
+                    Int64
+                } else if x >= y {
+                    a.clone()
+                } else {
+                    b.clone()
+                }
+            }
+            _ => {
+                let numeric = |t: &ArrowDataType| {
+                    int_rank(t).is_some() || matches!(t, Float32 | Float64 | Decimal128(_, _))
+                };
+                if numeric(a) && numeric(b) {
+                    coerce_numeric_types(a, b)
+                } else {
+                    a.clone()
+                }
+            }
+        },
     }
 }
 
